@@ -112,7 +112,9 @@ class Ctx:
             open(mf, "w").write(src)
             shutil.copy(os.path.join(hdir, "go.sum"), os.path.join(self.builddir, "go.sum"))
             cmd += ["-modfile", mf]
-        self.prebuild_copy(hdir)
+        ov = self.synclogdb_overlay(hdir)
+        if ov:
+            cmd += ["-overlay", ov]
         cmd.append("./cmd/" + name)
         t = time.time()
         p = subprocess.run(cmd, cwd=hdir, env=env, stdout=subprocess.PIPE, stderr=subprocess.STDOUT, text=True)
@@ -120,6 +122,22 @@ class Ctx:
             raise Infra("harness build failed for %s:\n%s" % (name, p.stdout[-4000:]))
         self.log("built %s in %.1fs" % (name, time.time() - t))
         return out
+
+    def synclogdb_overlay(self, hdir):
+        """cmd/thor/sync_logdb.go is package main in thor; the harness needs it as a library. It is taken from the
+        CURRENT tree of ctx.repo at every build and handed to the compiler through a per-run -overlay, so that
+        concurrent builds against different trees never share a generated file."""
+        src = os.path.join(self.repo, "cmd/thor/sync_logdb.go")
+        dstdir = os.path.join(hdir, "internal/synclogdb")
+        if not (os.path.isdir(dstdir) and os.path.exists(src)):
+            return None
+        body = open(src).read()
+        body = re.sub(r"^package main", "package synclogdb", body, count=1, flags=re.M)
+        gen = os.path.join(self.builddir, "sync_logdb_copied.%d.go" % os.getpid())
+        open(gen, "w").write("// Code copied from cmd/thor/sync_logdb.go by verifkit at build time. DO NOT EDIT.\n" + body)
+        ov = os.path.join(self.builddir, "overlay.%d.json" % os.getpid())
+        json.dump({"Replace": {os.path.join(dstdir, "sync_logdb_copied.go"): gen}}, open(ov, "w"))
+        return ov
 
     def prebuild_copy(self, hdir):
         """cmd/thor/sync_logdb.go is package main in thor; copy it from the *current* tree (DESIGN section 4)."""
